@@ -81,7 +81,7 @@ theorem flush_eff (g : Cfg) (s : S) (ks : List KAns) :
   split
   · exact ⟨⟨[], by simp, by simp⟩, Nat.le_refl _⟩
   split
-  · exact ⟨⟨[], by simp, by simp⟩, Nat.le_refl _⟩
+  · exact ⟨⟨[], eff_of_D (D_cResetRead g s)⟩, by rw [wl_cResetRead]; exact Nat.le_refl _⟩
   · exact flushLoop_eff g _ s ks
 
 /-- progress: the kernel has room for the first request ⇒ the backlog strictly decreases -/
@@ -209,7 +209,7 @@ theorem flush_backlog_congr (g : Cfg) (s t : S) (ks : List KAns) (h1 : t.closed 
   split
   · rw [h3]
   split
-  · rw [h3]
+  · rw [wl_cResetRead, wl_cResetRead, h3]
   · simp only [backlog]; rw [e _ t s ks h3]
 
 end ConnFull
